@@ -31,6 +31,33 @@ CLAIMED = {
              "Value.type objects are not compared.",
         technique="Lean 4 proof (invariant by induction over the flattening) + correspondence check over call histories",
         ref="DESIGN.md section 8, C04"),
+    "C05": dict(
+        text="Lean theorems about the description fcp_dbc hands to cantools (one message per CAN binding, one signal per layout leaf): message length "
+             "= ceil(bits/8) <= 8 and bits <= 64; signal k has leaf k's length, position (MSB-shifted by 7 for non-little-endian), signedness, float flag, "
+             "unit, byte order; a frame packed per the layout decodes (Intel) to every leaf's value (extract_pack, by induction over the tiling). Tie: the "
+             "generated DBC text is read back by an independent reader in the harness and compared with the model's description per bus; frames packed by "
+             "the Lean layout packing are decoded through the generated DBC with cantools.",
+        note="cantools' printer is not modelled; decode-through-DBC is proved for little-endian signals only (big-endian byte-aligned signals are "
+             "covered by the differential comparison of start/length/byte order).",
+        technique="Lean 4 proof (layout tiling => DBC geometry, decode-pack identity) + differential check through an independent DBC reader",
+        ref="DESIGN.md section 8, C05"),
+    "C14": dict(
+        text="Lean theorems: a binding whose resolved struct has no static size (any string / dynamic array / optional, at any depth) has no layout, so DBC "
+             "generation fails and the C plug-in's verification rejects it; a layout wider than 64 bits is rejected by the DBC writer and by the C "
+             "verification; every emitted signal lies inside its message (start+len <= 8*dlc <= 64) and signals are pairwise disjoint. Uses generate_static "
+             "(layout size = static wire size). Tie: bindings of 57..200 bits with the excess in any position and every placement of a variable-size field, "
+             "real fcp_dbc outcome vs model; geometry of every generated DBC re-checked by the independent reader; the C command in C10's harness.",
+        note="An escaping exception of the DBC generator counts as 'fails with an error'.",
+        technique="Lean 4 proof (size of layout = static wire size; rejection lemmas) + differential check around the 64-bit limit",
+        ref="DESIGN.md section 8, C14"),
+    "C15": dict(
+        text="Lean theorems: with distinct ids the sorted field list is invariant under permutation of the declarations (insertion sort is a stable "
+             "permutation + Perm.eq_of_pairwise); hence for twin schemas the closed type tree, the Python codec bytes, the packed layout and the DBC "
+             "description coincide. Tie: every generated schema is paired with a declaration-permuted twin and pushed through the Python codec, "
+             "the packed encoder and the DBC generator.",
+        note="Partial: the C and C++ back ends are covered when their harnesses run (C03/C06); duplicate field ids are outside the theorem.",
+        technique="Lean 4 proof (sorting is permutation-invariant => all back-end models agree) + twin-schema differential check",
+        ref="DESIGN.md section 8, C15"),
     "C09": dict(
         text="Lean theorems: the model of Verifier.verify (category loop, registered checks in registration order, the code's own count>1 idiom) "
              "returns ok iff WellFormed S, iff WellFormed S and DbcOk S with the DBC checks, iff WellFormed S and COk S with the C checks; and the "
